@@ -63,6 +63,18 @@ PROPS = {
              "thorough": {"runs": 300000, "max_wall_s": 1500, "minimise_s": 60}},
         ],
     },
+    "C19": {
+        "level": "exploration",
+        "rule": "one run = 1-8 workers x 1-4 rounds of get/use/return (or close / mark unusable) on 1-3 keys with MaxKeys, MaxConnsPerKey, idle lifetime and stale-key lifetime drawn so that the bounds are hit, sleeps across the lifetimes on the fake clock, the pool's own one-minute clean-up ticker, and one Close (concurrent, delayed or final); schedule drawn with preemption bound 0-3 or random walk over yield points before every lock/channel/go operation of pool.go; non-trivial = a pooled connection was reused or a preemption taken",
+        "real": ["internal/smtpconn/pool (yield-instrumented, deterministic map iteration via overlay)", "testing/synctest fake clock"],
+        "stub": ["connection objects (record owner, close count, last use)", "connection factory (may fail by injection)"],
+        "assumptions": COMMON_ASSUME,
+        "parts": [
+            {"pkg": "po", "world": "po",
+             "quick": {"runs": 20000, "max_wall_s": 120, "minimise_s": 20},
+             "thorough": {"runs": 2000000, "max_wall_s": 1500, "minimise_s": 60}},
+        ],
+    },
 }
 
 # ---------------------------------------------------------------- manifest metadata
@@ -88,6 +100,10 @@ META = {
             "design_ref": "DESIGN.md section 6 (C18)",
             "level_text": "Seeded exploration; the oracle recomputes which recipients must/may be listed from the observed transactions and the documented life cycle.",
             "level_note": "The bounce pipeline is a scripted target; report well-formedness is judged by Go's mime/multipart and net/textproto."},
+    "C19": {"technique": "deterministic simulation: seeded, preemption-bounded scheduling of AST-inserted yield points in pool.go, fake-clock expiry, ownership/close-count monitor on connection objects",
+            "design_ref": "DESIGN.md section 6 (C19)",
+            "level_text": "Controlled-interleaving exploration of concurrent get/return/clean-up/shutdown with the real pool; every connection object monitors owner, close count and hand-out time.",
+            "level_note": "Connections are stubs; code between yield points is atomic; idle-lifetime checks allow one second of slack for the pool's unix-second arithmetic."},
 }
 
 NOT_APPLICABLE = [
